@@ -1,6 +1,6 @@
 (* C13  Backtests are deterministic and isolated from other runs and unrelated data (partial: the inventory of process-wide state is
    modelled by hand and compared with the code by the regenerated Gen/Globals.v and by the in-process run sequences). *)
-From RQ Require Import Model.Num Model.Isolation Proofs.NumFacts Proofs.IsolationFacts.
+From RQ Require Import Model.Num Model.Position Model.Account Model.AccountRun Model.Isolation Proofs.NumFacts Proofs.IsolationFacts.
 Open Scope Z_scope.
 
 (* a new run erases the switches, the environment and the memoised results earlier runs left behind *)
@@ -27,6 +27,13 @@ Theorem C13_contracts_only_of_product : forall data und d id, In id (contracts d
   exists i, In i data /\ i_id i = id /\ i_und i = und /\ i_future i = true /\ i_listed i <= d <= i_delisted i.
 Proof. exact contracts_only_of_product. Qed.
 
+(* the account kernel: extra positions (instruments in the data set the strategy never trades or marks) are carried along unchanged and do not
+   change the cash or any other position, for every event list that only names the strategy's own entries (forced liquidation, which sums over
+   all positions, excluded) *)
+Theorem C13_account_frame : forall g evs a extra, Forall (local_to (length (a_pos a))) evs ->
+  arun g (extend a extra) evs = extend (arun g a evs) extra.
+Proof. exact arun_frame. Qed.
+
 Example C13_example :
   wf_ops false [PSwitch 0; PCached 3; PMargin [0%Q]; POpenFuture; PMargin [5%Q]; PNewId] /\
   prun (fun k => k * 2) (boot {| sw_reinvest := true; sw_cash_return := false; sw_t1 := true |} 2
@@ -41,3 +48,4 @@ Print Assumptions C13_stale_cache_would_leak.
 Print Assumptions C13_lookup_in_superset.
 Print Assumptions C13_contracts_in_superset.
 Print Assumptions C13_contracts_only_of_product.
+Print Assumptions C13_account_frame.
